@@ -1,6 +1,7 @@
 // Driver for C13 (POP3 session = stable snapshot, deletes commit only on QUIT) and the POP3
 // wire part of C02.
 //
+//	net <mem|file> <init> <chunks> <eof|idle|err> =>  the same for a scripted connection (pauses between chunks, three endings)
 //	bytes <mem|file> <init> <hexstream>      =>  the same observation for ONE raw byte stream, then EOF
 //	sess <mem|file>[:<cap>] <init> <events>  =>  <reply> ... S<box>=<handle>:<size>. ...
 //
@@ -236,6 +237,9 @@ func exec(kind string, in []string) []string {
 	if kind == "stress" {
 		return execStress(in)
 	}
+	if kind == "net" && len(in) == 4 {
+		return execNet(in)
+	}
 	if kind == "bytes" && len(in) == 3 {
 		// one raw client byte stream in a single write, then EOF
 		return exec("sess", []string{in[0], in[1], "c" + in[2]})
@@ -359,6 +363,95 @@ func exec(kind string, in []string) []string {
 		return strings.Split(bad, " ")
 	}
 	srv.Drain() // every session must have left the WaitGroup
+	var names []string
+	for n := range w.names {
+		names = append(names, n)
+	}
+	sort.Strings(names)
+	for _, n := range names {
+		msgs, err := st.GetMessages(vh.US(n))
+		if err != nil {
+			outs = append(outs, "S"+n+"=ERR"+hex.EncodeToString([]byte(err.Error())))
+			continue
+		}
+		rows := make([]string, len(msgs))
+		for i, m := range msgs {
+			rows[i] = w.handleOf(m.ID()) + ":" + strconv.FormatInt(m.Size(), 10)
+		}
+		outs = append(outs, "S"+n+"="+strings.Join(rows, "."))
+	}
+	return outs
+}
+
+// execNet: net <flavour> <init> <chunks> <eof|idle|err> - one session over a scripted connection:
+// chunks (hex, comma separated, "-" = none) arrive with a pause longer than the idle timeout
+// between them, then the connection ends by EOF, silence or a read error.
+func execNet(in []string) []string {
+	st, cleanup := newStore(in[0])
+	defer cleanup()
+	w := &world{store: st, handles: map[string]map[string]int{}, ids: map[string][]string{}, names: map[string]bool{}}
+	if in[1] != "-" {
+		for _, box := range split(in[1], ";") {
+			i := strings.IndexByte(box, ':')
+			if i < 0 {
+				continue
+			}
+			w.names[box[:i]] = true
+			for _, s := range split(box[i+1:], ".") {
+				w.deliver(vh.US(box[:i]), vh.U(s))
+			}
+		}
+	}
+	var chunks [][]byte
+	var words []string
+	if in[2] != "-" {
+		for _, c := range strings.Split(in[2], ",") {
+			b := vh.U(c)
+			chunks = append(chunks, b)
+			var pending []byte // a partial line before a pause is dropped by the server
+			for _, x := range b {
+				pending = append(pending, x)
+				if x == '\n' {
+					words = append(words, commandWord(pending))
+					pending = nil
+				}
+			}
+		}
+	}
+	srv, err := pop3.NewServer(config.POP3{Domain: "verif", Timeout: 300 * time.Second}, st)
+	if err != nil {
+		panic(err)
+	}
+	s := &session{conn: newScriptedConn(chunks, in[3]), done: make(chan string, 1)}
+	go func() {
+		defer func() {
+			if r := recover(); r != nil {
+				fmt.Fprintf(os.Stderr, "session panic: %v\n%s\n", r, debug.Stack())
+				s.conn.Close()
+				s.done <- fmt.Sprint(r)
+				return
+			}
+			s.done <- ""
+		}()
+		srv.VerifServe(1, s.conn)
+	}()
+	select {
+	case p := <-s.done:
+		if p != "" {
+			return []string{"PANIC", vh.HS(p)}
+		}
+	case <-time.After(20 * time.Second):
+		return []string{"WEDGED"}
+	}
+	srv.Drain()
+	var outs []string
+	for i, u := range s.conn.replyUnits() {
+		word := ""
+		if i > 0 && i-1 < len(words) {
+			word = words[i-1]
+		}
+		outs = append(outs, w.project(word, u))
+	}
 	var names []string
 	for n := range w.names {
 		names = append(names, n)
